@@ -58,12 +58,15 @@ class C19(CheckBase):
                 inner['cmd'] = ['cat']
                 inner['globals'] = rng.choice([[], ['--ui', 'watford'], ['--ui', 'opus'], ['--ui', 'acorn'], ['--dir', 'A']])
                 inner['fault'] = None
-            elif rng.chance(0.35) and inner['image'].get('surfaces') and 'genflux' not in inner['image']:
+            elif rng.chance(0.45) and inner['image'].get('surfaces') and 'genflux' not in inner['image']:
                 # a well-formed disc and a valid command from the whole menu: most of C07's plans damage the image,
                 # and a command that is refused early never reaches the code both builds must agree on
                 from sim import dfswork
                 s0 = dfswork.surface_of({'surface': inner['image']['surfaces'][0]})
                 which = rng.choice(dfswork.READ_CMDS + ['extract-files', 'extract-unused', 'sector-map', 'sector-map', 'space', 'free'])
+                if s0.variant == 'opus' and rng.chance(0.7):
+                    # (an Opus disc has structures of its own for these two to report: the disc catalogue in sector 16)
+                    which = rng.choice(['sector-map', 'extract-unused', 'sector-map', 'free', 'space'])
                 inner['cmd'] = [which, 'out'] if which.startswith('extract') else dfswork.gen_read_command(rng, s0, which)
                 inner['ops'] = []
                 inner['fault'] = None
@@ -127,7 +130,7 @@ class C19(CheckBase):
             nm = ent.get('name') or 'in%d.bbc' % i
             names.append(nm)
             d = c08.CHECK.materialise(ent)
-            if d is not None:
+            if d is not None and len(nm) < 250 and '/' not in nm:
                 files[nm] = d
         sb.reset(files)
         argv = ['bbcbasic_to_text']
